@@ -369,3 +369,36 @@ Proof.
     revert Hps. destruct (Nat.ltb_spec 0 D), (Nat.leb_spec D m), (Nat.eqb_spec D 0); cbn [andb]; intros Hps; try lia; lra.
   - intros k. rewrite (A3 c k Hc), (B3 c k Hc), (P6 c (S k + m)%nat Hc ltac:(lia)). fold (entered c). ring.
 Qed.
+
+(* ---------------- time-area split ---------------- *)
+(* Splitting a wet flux into parts v_change(v, vol v * f_i) with the f_i summing to 1
+   gives parts that add up to the flux (volume and every additive pollutant). *)
+Fixpoint fsum (fs : list Q) : Q := match fs with [] => 0 | f :: r => f + fsum r end.
+Fixpoint parts_sum (c : sel) (v : vqip) (fs : list Q) : Q :=
+  match fs with [] => 0 | f :: r => cmp c (vchange v (vol v * f)) + parts_sum c v r end.
+Theorem timearea_split c v fs : conserved c -> wet v -> fsum fs == 1 -> parts_sum c v fs == cmp c v.
+Proof.
+  intros Hc [Hn Hd] Hs.
+  assert (G : parts_sum c v fs == cmp c v * fsum fs).
+  { clear Hs. induction fs as [|f fs IH]; cbn [parts_sum fsum]; [ring|]. rewrite IH.
+    destruct (cmp_change_cases c v (vol v * f) Hc) as [[Hp E]|[Hp E]]; rewrite E.
+    - field. lra.
+    - pose proof (Hn SVol I) as H0; cbn [cmp] in H0. assert (Hz : vol v == 0) by lra.
+      destruct c as [|k|k]; [cbn [cmp]; rewrite Hz; ring | cbn [cmp]; rewrite (Hd Hp k); ring | destruct Hc]. }
+  rewrite G, Hs. ring.
+Qed.
+
+(* a concrete non-trivial state meeting the hypotheses of the theorems above *)
+Lemma nonneg_lit1 x a n : 0 <= x -> 0 <= a -> nonneg (mkV x [a] [n]).
+Proof.
+  intros Hx Ha [|k|k] Hc; [exact Hx | | destruct Hc]. cbn [cmp adds]. unfold get.
+  destruct k as [|[|k]]; cbn; lra.
+Qed.
+Lemma wet_lit1 x a n : 0 < x -> 0 <= a -> wet (mkV x [a] [n]).
+Proof. intros Hx Ha. split; [apply nonneg_lit1; lra | cbn [vol]; intros H; lra]. Qed.
+Lemma qt_example_ok :
+  let t := qt_init (10#1) (mkV (2#1) [1#2] [15#1]) 2 [] in
+  qt_ok t /\ wet (mkV (3#1) [1#1] [20#1]) /\ eps <= 3.
+Proof.
+  split; [apply qt_init_ok; apply nonneg_lit1; lra|]. split; [apply wet_lit1; lra | unfold eps; lra].
+Qed.
